@@ -10,6 +10,7 @@ from .protocolentities import ResultRequestUploadIqProtocolEntity
 from .protocolentities import MediaMessageProtocolEntity
 from .protocolentities import ExtendedTextMediaMessageProtocolEntity
 from yowsup.layers.protocol_iq.protocolentities import IqProtocolEntity, ErrorIqProtocolEntity
+from yowsup.layers.protocol_messages.proto.e2e_pb2 import Message
 import logging
 
 logger = logging.getLogger(__name__)
@@ -33,6 +34,9 @@ class YowMediaProtocolLayer(YowProtocolLayer):
     def recvMessageStanza(self, node):
         if node.getAttributeValue("type") == "media":
             mediaNode = node.getChild("proto")
+            if self.isSenderKeyDistributionOnly(mediaNode):
+                # first message into a group: this envelope only carried the sender key, the media follows
+                return
             if mediaNode.getAttributeValue("mediatype") == "image":
                 entity = ImageDownloadableMediaMessageProtocolEntity.fromProtocolTreeNode(node)
                 self.toUpper(entity)
@@ -60,6 +64,12 @@ class YowMediaProtocolLayer(YowProtocolLayer):
             else:
                 logger.warn("Unsupported mediatype: %s, will send receipts" % mediaNode.getAttributeValue("mediatype"))
                 self.toLower(MediaMessageProtocolEntity.fromProtocolTreeNode(node).ack(True).toProtocolTreeNode())
+
+    def isSenderKeyDistributionOnly(self, protoNode):
+        message = Message()
+        message.ParseFromString(protoNode.getData())
+        fields = [descriptor.name for descriptor, _ in message.ListFields()]
+        return fields == ["sender_key_distribution_message"]
 
     def sendIq(self, entity):
         """
